@@ -190,7 +190,9 @@ fn ask(addr: SocketAddr, method: &str, host: Option<&str>, path: &str, query: Op
         req.push_str(&format!("{}: {}\r\n", k, v));
     }
     if ws {
-        req.push_str("Upgrade: websocket\r\nConnection: Upgrade\r\nSec-WebSocket-Key: aGVsbG8=\r\n");
+        // Connection is a token list: `Upgrade` may stand alone, in either case, or beside other tokens
+        let conn = ["Upgrade", "upgrade", "keep-alive, Upgrade", "Upgrade, keep-alive"][(fnv(path.as_bytes()) % 4) as usize];
+        req.push_str(&format!("Upgrade: websocket\r\nConnection: {}\r\nSec-WebSocket-Key: aGVsbG8=\r\n", conn));
     }
     req.push_str("\r\n");
     c.send(req.as_bytes(), &[], 0).map_err(|e| e.to_string())?;
@@ -326,6 +328,11 @@ pub fn run_app_cases(r: &mut Report, addr: SocketAddr, m: &AppModel, rng: &mut R
         // the query may itself contain `?`, `/`, `*` and text that looks like a registered path (RFC 3986 allows all of them)
         let q: &str = *rng.pick(&["q=1&r=/other", "", "next=/docs/x?y=1", "what?", "a?b?c", "?", "x=*", "/static/index.html", "q=%3F&r=%2F"]);
         let variants: Vec<(&str, Option<&str>, Vec<(&str, &str)>)> = if ws { vec![("GET", None, vec![]), ("GET", Some(q), vec![("X-Extra", "1")])] } else { vec![("GET", None, vec![]), (*rng.pick(&["POST", "PUT", "DELETE", "GET"]), Some(q), vec![("X-Extra", "1"), ("Accept", "*/*")])] };
+        let mut variants = variants;
+        if !ws && want == Choice::NotFound {
+            // no route: 404 whatever the method, also for OPTIONS (which the library answers itself only for routed paths)
+            variants.push(("OPTIONS", None, vec![]));
+        }
         for (vi, (method, query, extra)) in variants.iter().enumerate() {
             let ex = |got: &str| J::obj(vec![("app", app_json(m)), ("host", host.as_ref().map(J::s).unwrap_or(J::Null)), ("path", J::s(&path)), ("websocket", J::Bool(ws)), ("method", J::s(*method)), ("query", query.map(J::s).unwrap_or(J::Null)), ("expected", J::s(&want_name)), ("got", J::s(show(got.as_bytes(), 80))), ("runtime", J::s(runtime))]);
             match ask(addr, method, host.as_deref(), &path, *query, extra, ws) {
